@@ -45,7 +45,7 @@ RULE = ("annotations = all expression trees with <= 1 constructor level (DESIGN 
         "{list,Optional,Annotated,Array,tuple[T,U],Union}. Separate classes: "
         "Annotated[T,'m'] (string metadata), the literal None, the literal triples of tests/test_typing.py. Pipelines: "
         "pair/chain/fan-in/fan-out wirings of a sub-alphabet, edges direct / element-wise map / reduction (whole, 'y[i, :]', "
-        "'y[:]'), validate_type_annotations in {True,False}, built by Pipeline([...]) and by add() (2 nodes: 25 annotations, all "
+        "'y[:]'), validate_type_annotations in {True,False}, built by Pipeline([...]) and by add(), in dependency order and reversed (2 nodes: 25 annotations, all "
         "ordered pairs; 3 nodes: 6 annotations per slot, thorough 7). A pair is distinct by "
         "construction (distinct trees) and non-trivial iff the reference verdict is must/must-not and was reached by "
         "descending into union members, generic arguments, TypeVar bounds or a subclass decision (not by identity, Any, "
@@ -523,6 +523,12 @@ WIRINGS = {
                            [(0, 1, "reduce")]),
         "reduce-colon": ([(_F, ["x"], "y", 0, {}, "x[i] -> y[i]"), (_G, ["y", "k"], "z", None, {"y": 1}, "y[:], k[j] -> z[j]")],
                          [(0, 1, "reduce")]),
+        # the producer has TWO outputs (returns tuple[A, int]); the edge under test carries its first output
+        "direct-tuple-producer": ([(_F, ["x"], ("y", "y2"), 0, {}, None), (_G, ["y"], "z", None, {"y": 1}, None)], [(0, 1, "direct")]),
+        "elementwise-tuple-producer": ([(_F, ["x"], ("y", "y2"), 0, {}, "x[i] -> y[i], y2[i]"), (_G, ["y"], "z", None, {"y": 1}, "y[i] -> z[i]")],
+                                       [(0, 1, "elementwise")]),
+        "reduce-partial-tuple-producer": ([(_F, ["x", "v"], ("y", "y2"), 0, {}, "x[i], v[j] -> y[i, j], y2[i, j]"),
+                                           (_G, ["y"], "z", None, {"y": 1}, "y[i, :] -> z[i]")], [(0, 1, "reduce")]),
     },
     "chain": {  # f -> y:A ; g(y:B) -> z:C ; h(z:D)
         "direct-direct": ([(_F, ["x"], "y", 0, {}, None), (_G, ["y"], "z", 2, {"y": 1}, None), (_H, ["z"], "w", None, {"z": 3}, None)],
@@ -596,10 +602,16 @@ def run_pipe(case):  # noqa: C901, PLR0912, PLR0915
             for name, params, out, ret_slot, pslots, mapspec in funcs:
                 annotations = {p: obj(anns[sl]) for p, sl in pslots.items() if anns[sl] != NOANN}
                 if ret_slot is not None and anns[ret_slot] != NOANN:
-                    annotations["return"] = obj(anns[ret_slot])
+                    annotations["return"] = obj(anns[ret_slot]) if not isinstance(out, tuple) else tuple[obj(anns[ret_slot]), int]
                 pfs.append(PipeFunc(_mkfunc(name, params, annotations), out, mapspec=mapspec))
             if mode == "ctor":
                 Pipeline(pfs, validate_type_annotations=validate)
+            elif mode == "ctor-reversed":  # consumers listed before their producers
+                Pipeline(pfs[::-1], validate_type_annotations=validate)
+            elif mode == "add-reversed":
+                p = Pipeline(pfs[-1:], validate_type_annotations=validate)
+                for pf in pfs[-2::-1]:
+                    p.add(pf)
             else:
                 p = Pipeline(pfs[:1], validate_type_annotations=validate)
                 for pf in pfs[1:]:
@@ -778,7 +790,7 @@ def run_unit(unit):  # noqa: C901, PLR0912, PLR0915
             combos += [(w, a, b) for w in ("direct", "elementwise") for a, b in PNONE]
         for w, a, b in combos:
             for validate in (True, False):
-                for mode in ("ctor", "add"):
+                for mode in ("ctor", "add", "ctor-reversed", "add-reversed"):
                     _do_pipe(acc, {"op": "pipe", "topo": "pair", "wiring": w, "anns": [lst(a), lst(b)], "validate": validate, "mode": mode})
         if kind == "pipe2" and c == 0:
             acc.sample({"op": "pipe", "topo": "pair", "wiring": w, "anns": [lst(P2[1]), lst(P2[3])], "validate": True, "mode": "ctor"})
